@@ -36,6 +36,14 @@ def _prefix_unbound(CE, cond, branch):
     return positive and "is_none" not in text
 
 
+def _subforms(n):
+    if isinstance(n, tuple):
+        yield n
+        for x in n:
+            if isinstance(x, tuple):
+                yield from _subforms(x)
+
+
 def _is_other_name(n):
     """the normal form reads the `name` of an OtherRustType (the bare Rust name of a user type)"""
     if not isinstance(n, tuple):
@@ -465,6 +473,11 @@ def run(ck, F):
     ck.floor("R3", "by-name selection functions", n_sel, 3)
     rule_global_components_only(ck, F)
     rule_type_refs_qualified(ck, F)
+    # a `ref` member names its target through the reference (C01.R4 evaluates what type such a member gets)
+    from rules import c01 as C01
+    from rules import c04 as C04
+    from rules import templates as T_
+    C01.rule_refs_name_derivable_items(C04._Sub(ck, "R5", lambda key: key.startswith("ref-type-from-reference")), F, T_.extractor(F))
     # builtin decision: wherever as_rust_type consults the builtin table (the match, the constant table, a helper holding either),
     # it does so only on the paths on which the prefix of the reference was found not to name a namespace of the document
     b = F.lib.body(C02.AS_RUST_TYPE)
@@ -501,6 +514,31 @@ def run(ck, F):
             else:
                 ck.violation("R3", "builtin-decision", unguarded[0],
                              "as_rust_type matches the local name against the builtin table without consulting the prefix: `tns:date` binds to xs:date")
+            # .. and a name without a prefix: it belongs to the default namespace of the schema. Where that is the schema's own target
+            # namespace (`xmlns="urn:own" targetNamespace="urn:own"`), `type="language"` names the schema's own type `language`; the
+            # table may be consulted only where the document was asked about that and said no.
+            def asks_document_about_unprefixed(cond, branch):
+                c = CE.expand(cond)
+                while isinstance(c, tuple) and c[0] == "not":
+                    c, branch = c[1], not branch
+                if branch is not False:
+                    return False
+                text = og.nf_str(c)
+                no_prefix = any(isinstance(x, tuple) and ((x[0] == "call" and str(x[1]).rsplit("::", 1)[-1] == "is_none") or
+                                                          (x[0] == "islet" and str(x[1]).rsplit("::", 1)[-1] == "None")) and _SPLIT[0] and _SPLIT[0].rsplit("::", 1)[-1] in og.nf_str(x)
+                                for x in _subforms(c))
+                asks_doc = any(isinstance(x, tuple) and ((x[0] == "call" and "doc::RustDocument::" in str(x[1])) or (x[0] == "field" and x[1] == ("param", "doc")))
+                               for x in _subforms(c))
+                return no_prefix and asks_doc
+            loose = [sp_ for sp_, ctx in sites if not any(c[0] == "alt" and asks_document_about_unprefixed(c[1], c[2]) for c in ctx)]
+            if not loose:
+                ck.ok("R3", "builtin-decision:unprefixed", b["span"], "for a name without a prefix the document is asked whether such names are its own before "
+                      "the builtin table is consulted")
+            else:
+                ck.violation("R3", "builtin-decision:unprefixed", loose[0],
+                             "as_rust_type takes a name without a prefix for a built-in type whenever the table has it, whatever the default namespace of "
+                             "the schema is: in a schema whose default namespace is its target namespace, `type=\"language\"` names the schema's own type "
+                             "`language` (with its facets), not xs:language")
     # ---- R6
     b = F.lib.body("model::doc::RustDocument::extend")
     if b is None:
